@@ -298,6 +298,23 @@ func (r *rewriter) run() {
 				}
 			case "crypto/rand":
 				r.rep.Warnings = append(r.rep.Warnings, r.site(x.Pos())+" crypto/rand."+x.Sel.Name+" is not simulated (uncontrolled randomness)")
+			case "path/filepath":
+				switch x.Sel.Name {
+				case "Glob", "Walk", "WalkDir", "Abs":
+					osSel = append(osSel, x)
+				case "EvalSymlinks":
+					r.rep.OsUnshimmed["filepath."+x.Sel.Name]++
+				}
+			case "io/ioutil":
+				switch x.Sel.Name {
+				case "ReadFile", "WriteFile", "TempFile":
+					osSel = append(osSel, x)
+				case "TempDir":
+					x.Sel.Name = "MkdirTemp"
+					osSel = append(osSel, x)
+				case "ReadDir":
+					r.rep.OsUnshimmed["ioutil."+x.Sel.Name]++
+				}
 			case "os":
 				if osNames[x.Sel.Name] {
 					osSel = append(osSel, x)
@@ -609,7 +626,7 @@ func (r *rewriter) write(filename string) error {
 	// imports whose every use was redirected become blank imports
 	for _, is := range r.file.Imports {
 		p, _ := strconv.Unquote(is.Path.Value)
-		if p != "time" && p != "os" && p != "sync/atomic" && p != "sync" && p != "math/rand" && p != "math/rand/v2" {
+		if p != "time" && p != "os" && p != "sync/atomic" && p != "sync" && p != "math/rand" && p != "math/rand/v2" && p != "path/filepath" && p != "io/ioutil" {
 			continue
 		}
 		if is.Name != nil && (is.Name.Name == "_" || is.Name.Name == ".") {
